@@ -139,6 +139,10 @@ func run(c *harness.Ctx, i int) {
 	useAuth := rng.Intn(3) != 0
 	authVia := []string{"flag", "env"}[rng.Intn(2)]
 	skipVerifyRead := rng.Intn(2) == 0
+	proxied := server == "index" && via == "handler" && rng.Intn(3) == 0
+	if proxied {
+		via = "handler-http-upstream"
+	}
 	c.Info("server=%s via=%s writable=%v verify-write=%v uncompressed=%v auth=%v(%s)", server, via, writable, verifyWrite, uncompressed, useAuth, authVia)
 	c.LogInfo()
 
@@ -197,7 +201,7 @@ func run(c *harness.Ctx, i int) {
 	if useAuth {
 		cfgAuth = secret
 	}
-	if via == "handler" {
+	if via == "handler" || proxied {
 		var h http.Handler
 		if server == "chunk" {
 			var conv desync.Converters
@@ -205,6 +209,32 @@ func run(c *harness.Ctx, i int) {
 				conv = desync.Converters{desync.Compressor{}}
 			}
 			h = desync.NewHTTPHandler(store, writable, !verifyWrite, conv, cfgAuth)
+		} else if proxied {
+			// the index server's store is an HTTP location: a plain file-tree server (GET/PUT of cleaned paths below
+			// the sandbox) whose sub-tree /served/ is what the index server is configured with
+			up := httptest.NewServer(http.HandlerFunc(func(w http.ResponseWriter, r *http.Request) {
+				p := filepath.Join(box, filepath.FromSlash(path.Clean("/"+r.URL.Path)))
+				switch r.Method {
+				case "GET", "HEAD":
+					b, err := os.ReadFile(p)
+					if err != nil {
+						http.NotFound(w, r)
+						return
+					}
+					w.Write(b)
+				case "PUT":
+					b, _ := io.ReadAll(r.Body)
+					if os.WriteFile(p, b, 0644) != nil {
+						http.Error(w, "cannot write", 500)
+					}
+				default:
+					http.Error(w, "no", 405)
+				}
+			}))
+			defer up.Close()
+			uu, _ := url.Parse(up.URL + "/served/")
+			is, _ := desync.NewRemoteHTTPIndexStore(uu, desync.StoreOptions{ErrorRetry: 0})
+			h = desync.NewHTTPIndexHandler(is, writable, cfgAuth)
 		} else {
 			is, _ := desync.NewLocalIndexStore(served)
 			h = desync.NewHTTPIndexHandler(is, writable, cfgAuth)
@@ -292,6 +322,9 @@ func run(c *harness.Ctx, i int) {
 			{"enc-slash-out", "/..%2Foutside%2Fsecret.caibx"},
 			{"enc-slash-out2", "/%2E%2E%2Foutside%2Fplanted.caibx"},
 			{"enc-slash-nested", "/a/..%2f..%2foutside%2fsecret.caibx"},
+			{"enc2-slash-out", "/..%252Foutside%252Fsecret.caibx"},
+			{"enc2-slash-out2", "/..%252Foutside%252Fplanted.caibx"},
+			{"enc2-dotdot", "/%252e%252e%252Foutside%252Fsecret.caibx"},
 			{"double-slash", "//present.caibx"},
 			{"dot", "/."},
 			{"dotdot", "/.."},
